@@ -1,6 +1,413 @@
-(* C10 - placeholder: theorems are added with Proofs/BuildProofs.v *)
-From Xeh Require Import Model.Prelude Model.Vm.
+(* C10 - a source rejected while it is read or compiled leaves no trace.
+
+   [build_from_source fuel src m] (= eval for m = MEval, compile for m = MCompile) opens a
+   context, interns the text, runs the token loop [build1] and closes the context (for eval:
+   runs the new code).  A failure of the token loop - bad literal, unknown word, unbalanced
+   structure, error inside a meta block - is "rejected at build time"; [build_unwind] is then
+   applied (C10_error_phases: the only other way to fail is inside the closing run).
+   All theorems quantify over ALL sources, fuels, modes and states.
+
+   1  C10_rejected_source_restores   the machine after the rejection is the machine before it
+      C10_reachable_state_restores    the same for every API-reachable state, up to resolved late stubs
+      C10_wf_again / C10_wf_reachable  the state hypotheses hold again / in every API-reachable state
+   2  C10_no_leftover_code / _run     nothing of the rejected source can run
+   3  C10_later_sources_equivalent    every later source / run behaves as if the rejected source
+      C10_equivalence_is_kept         had never been submitted (C10_equivalent_means: what that says)
+   4  C10_eval_runs_own_code          a later line starts at its own first instruction, whatever
+      C10_runtime_failure_shape       an earlier line left; shape of the state after a run-time failure
+
+   Hypotheses on the state in which the source is submitted ([build_wf]):
+     - input s = []  and  length (dbg s) = length (code s): true in every state reachable
+       through the API (C10_wf_reachable);
+     - no unresolved [late] stub in the code of s: needed, C10_late_stub_refuted (finding F3).
+   Hypothesis on the rejected source, [calls_bad ... = false], a boolean replay of the token
+   loop (Proofs/UnwindMain.v): while the source was built no user-defined immediate word was
+   invoked (needed: C10_user_immediate_refuted, F1) and [const] did not name a constant that
+   existed before (needed: C10_const_refuted, F2).
+   Side condition of 3: no instruction limit is set, or the meter did not move.
+
+   NOT restored by the unwinding (and not claimed): the list of source texts (the rejected text
+   stays interned, later buffers get the next index - so the source index recorded in the debug
+   map and in the last-token record of later code differs), the instruction meter, the captured
+   output, the reverse log, the last-token record, the about-to-stop flag.  Theorem 3 shows
+   that nothing else can be influenced by them. *)
+From Xeh Require Import Model.Prelude Model.Bits Model.Cell Model.Lexer Model.Vm Model.Words Model.Build Model.Boot.
+From Xeh Require Import Proofs.VmLimits Proofs.NoPanicBuild Proofs.UnwindLists Proofs.UnwindFrame Proofs.UnwindInv
+                        Proofs.UnwindBuild Proofs.UnwindMain Proofs.UnwindAfter Proofs.UnwindAuxVm Proofs.UnwindFollow
+                        Proofs.UnwindWf Proofs.UnwindWitness.
 
 Theorem C10_next_stopped : forall nf s, is_running s = false -> next nf s = ROk tt s.
 Proof. intros nf s H. unfold next. rewrite H. reflexivity. Qed.
 Check C10_next_stopped : forall nf s, is_running s = false -> next nf s = ROk tt s.
+
+(* 1. MAIN: the machine is exactly what it was *)
+Theorem C10_rejected_source_restores : forall fo pr rf fuel src m s s1 k p s2,
+  (m = MEval \/ m = MCompile) ->
+  (input s = [] /\ length (dbg s) = length (code s) /\
+   Forall (fun op => is_resolve op = false) (code s)) ->
+  (context_open m ;; intern_source src) s = ROk tt s1 ->
+  build1 fo pr rf fuel (length (nested s1)) s1 = RErr k p s2 ->
+  calls_bad fo pr rf (length (dict s)) fuel (length (nested s1)) s1 = false ->
+  exists s', build_from_source fo pr rf fuel src m s = RErr k p s' /\
+    (input s' = input s /\ nested s' = nested s /\ cx s' = cx s /\ code s' = code s /\
+     dbg s' = dbg s /\ flows s' = flows s /\ dict s' = dict s /\ rs s' = rs s /\
+     loops s' = loops s /\ special s' = special s /\ heap s' = heap s /\ ds s' = ds s /\
+     insn_limit s' = insn_limit s /\ heap_limit s' = heap_limit s /\ stack_limit s' = stack_limit s).
+Proof. exact rejected_source_restores. Qed.
+Check C10_rejected_source_restores : forall fo pr rf fuel src m s s1 k p s2,
+  (m = MEval \/ m = MCompile) ->
+  (input s = [] /\ length (dbg s) = length (code s) /\
+   Forall (fun op => is_resolve op = false) (code s)) ->
+  (context_open m ;; intern_source src) s = ROk tt s1 ->
+  build1 fo pr rf fuel (length (nested s1)) s1 = RErr k p s2 ->
+  calls_bad fo pr rf (length (dict s)) fuel (length (nested s1)) s1 = false ->
+  exists s', build_from_source fo pr rf fuel src m s = RErr k p s' /\
+    (input s' = input s /\ nested s' = nested s /\ cx s' = cx s /\ code s' = code s /\
+     dbg s' = dbg s /\ flows s' = flows s /\ dict s' = dict s /\ rs s' = rs s /\
+     loops s' = loops s /\ special s' = special s /\ heap s' = heap s /\ ds s' = ds s /\
+     insn_limit s' = insn_limit s /\ heap_limit s' = heap_limit s /\ stack_limit s' = stack_limit s).
+
+(* the two phases in which a submission can fail: the theorem above covers the first *)
+Theorem C10_error_phases : forall fo pr rf fuel src m s k p s',
+  build_from_source fo pr rf fuel src m s = RErr k p s' ->
+  exists s1, (context_open m ;; intern_source src) s = ROk tt s1 /\
+    ((exists s2, build1 fo pr rf fuel (length (nested s1)) s1 = RErr k p s2 /\
+                 s' = build_unwind (length (nested s)) (length (input s)) (length (ds s)) (length (heap s)) s2) \/
+     (exists s2, build1 fo pr rf fuel (length (nested s1)) s1 = ROk tt s2 /\
+                 context_close fo rf s2 = RErr k p s')).
+Proof. exact build_error_phases. Qed.
+Check C10_error_phases : forall fo pr rf fuel src m s k p s',
+  build_from_source fo pr rf fuel src m s = RErr k p s' ->
+  exists s1, (context_open m ;; intern_source src) s = ROk tt s1 /\
+    ((exists s2, build1 fo pr rf fuel (length (nested s1)) s1 = RErr k p s2 /\
+                 s' = build_unwind (length (nested s)) (length (input s)) (length (ds s)) (length (heap s)) s2) \/
+     (exists s2, build1 fo pr rf fuel (length (nested s1)) s1 = ROk tt s2 /\
+                 context_close fo rf s2 = RErr k p s')).
+
+(* the state hypotheses hold again afterwards, so the theorem applies to the next rejection *)
+Theorem C10_wf_again : forall s s', same_machine s s' -> build_wf s -> build_wf s'.
+Proof. exact same_machine_wf. Qed.
+Check C10_wf_again : forall s s', same_machine s s' -> build_wf s -> build_wf s'.
+
+(* the first two state hypotheses hold in EVERY state reachable through the API (eval, compile,
+   next, run, rnext, set_limits, switching the recording) from the boot state: they do not
+   restrict the history.  (The third one - no unresolved [late] stub - does: see
+   C10_late_stub_refuted.) *)
+Theorem C10_wf_reachable : forall fo pr s, api_reach fo pr s ->
+  length (dbg s) = length (code s) /\ input s = [].
+Proof. exact api_wf. Qed.
+Check C10_wf_reachable : forall fo pr s, api_reach fo pr s ->
+  length (dbg s) = length (code s) /\ input s = [].
+
+(* 1'. the same for EVERY state reachable through the API, with no hypothesis on the state: all
+   components are restored exactly, except that the code may differ in cells that held an
+   unresolved [late] stub (which build-time execution resolved): same length, every other
+   cell unchanged *)
+Theorem C10_reachable_state_restores : forall fo pr s, api_reach fo pr s ->
+  forall rf fuel src m s1 k p s2,
+  (m = MEval \/ m = MCompile) ->
+  (context_open m ;; intern_source src) s = ROk tt s1 ->
+  build1 fo pr rf fuel (length (nested s1)) s1 = RErr k p s2 ->
+  calls_bad fo pr rf (length (dict s)) fuel (length (nested s1)) s1 = false ->
+  exists s', build_from_source fo pr rf fuel src m s = RErr k p s' /\
+    (input s' = input s /\ nested s' = nested s /\ cx s' = cx s /\
+     (length (code s') = length (code s) /\
+      forall i op, nth_error (code s) i = Some op -> is_resolve op = false -> nth_error (code s') i = Some op) /\
+     dbg s' = dbg s /\ flows s' = flows s /\ dict s' = dict s /\ rs s' = rs s /\
+     loops s' = loops s /\ special s' = special s /\ heap s' = heap s /\ ds s' = ds s /\
+     insn_limit s' = insn_limit s /\ heap_limit s' = heap_limit s /\ stack_limit s' = stack_limit s).
+Proof. exact reachable_rejected_source_restores. Qed.
+Check C10_reachable_state_restores : forall fo pr s, api_reach fo pr s ->
+  forall rf fuel src m s1 k p s2,
+  (m = MEval \/ m = MCompile) ->
+  (context_open m ;; intern_source src) s = ROk tt s1 ->
+  build1 fo pr rf fuel (length (nested s1)) s1 = RErr k p s2 ->
+  calls_bad fo pr rf (length (dict s)) fuel (length (nested s1)) s1 = false ->
+  exists s', build_from_source fo pr rf fuel src m s = RErr k p s' /\
+    (input s' = input s /\ nested s' = nested s /\ cx s' = cx s /\
+     (length (code s') = length (code s) /\
+      forall i op, nth_error (code s) i = Some op -> is_resolve op = false -> nth_error (code s') i = Some op) /\
+     dbg s' = dbg s /\ flows s' = flows s /\ dict s' = dict s /\ rs s' = rs s /\
+     loops s' = loops s /\ special s' = special s /\ heap s' = heap s /\ ds s' = ds s /\
+     insn_limit s' = insn_limit s /\ heap_limit s' = heap_limit s /\ stack_limit s' = stack_limit s).
+
+(* 2. nothing of the rejected source is left to run: same code, same ip; if the machine was
+   stopped, stepping and running do nothing *)
+Theorem C10_no_leftover_code : forall s s', same_machine s s' ->
+  is_running s' = is_running s /\ ip s' = ip s /\ code s' = code s.
+Proof. exact same_machine_running. Qed.
+Check C10_no_leftover_code : forall s s', same_machine s s' ->
+  is_running s' = is_running s /\ ip s' = ip s /\ code s' = code s.
+
+Theorem C10_no_leftover_run : forall s s' nf, same_machine s s' -> is_running s = false ->
+  next nf s' = ROk tt s' /\ forall fuel, run nf (S fuel) s' = Some (ROk tt s').
+Proof. exact same_machine_idle. Qed.
+Check C10_no_leftover_run : forall s s' nf, same_machine s s' -> is_running s = false ->
+  next nf s' = ROk tt s' /\ forall fuel, run nf (S fuel) s' = Some (ROk tt s').
+
+(* 4. whatever an earlier line left behind (a run-time failure leaves the ip at the failing
+   instruction), an evaluated source runs from ITS OWN first instruction: the run performed by
+   eval starts at ip = length (code s), the old code is an untouched prefix, and the result of
+   eval is the result of that run with the outer context put back *)
+Theorem C10_eval_runs_own_code : forall fo pr rf s, build_wf s ->
+  forall fuel src s1 s2,
+  (context_open MEval ;; intern_source src) s = ROk tt s1 ->
+  build1 fo pr rf fuel (length (nested s1)) s1 = ROk tt s2 ->
+  calls_bad fo pr rf (length (dict s)) fuel (length (nested s1)) s1 = false ->
+  let s0 := set_nested s2 (nested s) in
+  ip s0 = length (code s) /\ firstn (length (code s)) (code s0) = code s /\
+  eval fo pr rf fuel src s =
+    match run_m fo rf s0 with
+    | ROk _ s3 => ROk tt (set_cx s3 (if mode_eqb (cmode (cx s)) MEval then set_ctx_ip (cx s) (ip s3) else cx s))
+    | RErr k p s3 => RErr k p (set_cx s3 (if mode_eqb (cmode (cx s)) MEval then set_ctx_ip (cx s) (ip s3) else cx s))
+    | RPanic => RPanic
+    | RUnsup => RUnsup
+    end.
+Proof. exact eval_runs_own_code_E. Qed.
+Check C10_eval_runs_own_code : forall fo pr rf s, build_wf s ->
+  forall fuel src s1 s2,
+  (context_open MEval ;; intern_source src) s = ROk tt s1 ->
+  build1 fo pr rf fuel (length (nested s1)) s1 = ROk tt s2 ->
+  calls_bad fo pr rf (length (dict s)) fuel (length (nested s1)) s1 = false ->
+  let s0 := set_nested s2 (nested s) in
+  ip s0 = length (code s) /\ firstn (length (code s)) (code s0) = code s /\
+  eval fo pr rf fuel src s =
+    match run_m fo rf s0 with
+    | ROk _ s3 => ROk tt (set_cx s3 (if mode_eqb (cmode (cx s)) MEval then set_ctx_ip (cx s) (ip s3) else cx s))
+    | RErr k p s3 => RErr k p (set_cx s3 (if mode_eqb (cmode (cx s)) MEval then set_ctx_ip (cx s) (ip s3) else cx s))
+    | RPanic => RPanic
+    | RUnsup => RUnsup
+    end.
+
+(* 4a. a source that fails at RUN time leaves nesting, input, flow stack and the outer context
+   (up to its ip) as they were; code and dictionary have only grown *)
+Theorem C10_runtime_failure_shape : forall fo pr rf s, build_wf s ->
+  forall fuel src s1 s2 k p s3,
+  (context_open MEval ;; intern_source src) s = ROk tt s1 ->
+  build1 fo pr rf fuel (length (nested s1)) s1 = ROk tt s2 ->
+  calls_bad fo pr rf (length (dict s)) fuel (length (nested s1)) s1 = false ->
+  run_m fo rf (set_nested s2 (nested s)) = RErr k p s3 ->
+  exists s', eval fo pr rf fuel src s = RErr k p s' /\
+    nested s' = nested s /\ input s' = [] /\ flows s' = flows s /\
+    cx s' = (if mode_eqb (cmode (cx s)) MEval then set_ctx_ip (cx s) (ip s3) else cx s) /\
+    prefix_of (code s) (code s') /\ prefix_of (dict s) (dict s') /\
+    length (dbg s') = length (code s').
+Proof. exact eval_runtime_failure_shape_E. Qed.
+Check C10_runtime_failure_shape : forall fo pr rf s, build_wf s ->
+  forall fuel src s1 s2 k p s3,
+  (context_open MEval ;; intern_source src) s = ROk tt s1 ->
+  build1 fo pr rf fuel (length (nested s1)) s1 = ROk tt s2 ->
+  calls_bad fo pr rf (length (dict s)) fuel (length (nested s1)) s1 = false ->
+  run_m fo rf (set_nested s2 (nested s)) = RErr k p s3 ->
+  exists s', eval fo pr rf fuel src s = RErr k p s' /\
+    nested s' = nested s /\ input s' = [] /\ flows s' = flows s /\
+    cx s' = (if mode_eqb (cmode (cx s)) MEval then set_ctx_ip (cx s) (ip s3) else cx s) /\
+    prefix_of (code s) (code s') /\ prefix_of (dict s) (dict s') /\
+    length (dbg s') = length (code s').
+
+(* 3. FOLLOW-UP: after the rejection every later source (any text, any mode, any fuel) and
+   every later run gives the same value / the same error kind and payload from the state
+   left behind as from the state before, and the two resulting states are again equivalent.
+   [ares] / [oares] compare two results: same constructor, same value or error, states related
+   by [arel]; [arel s s'] (C10_equivalent_means) is equality of every component of the machine,
+   of the length of the debug map and of the lexer positions of pending input.  The only
+   side condition: no instruction limit is set, or the meter did not move (the meter is not
+   restored, so with a limit the later source has a smaller budget). *)
+Theorem C10_later_sources_equivalent : forall fo pr rf fuel src m s s1 k p s2,
+  (m = MEval \/ m = MCompile) ->
+  build_wf s ->
+  (context_open m ;; intern_source src) s = ROk tt s1 ->
+  build1 fo pr rf fuel (length (nested s1)) s1 = RErr k p s2 ->
+  calls_bad fo pr rf (length (dict s)) fuel (length (nested s1)) s1 = false ->
+  exists s', build_from_source fo pr rf fuel src m s = RErr k p s' /\ same_machine s s' /\
+    (rlog s' = None <-> rlog s = None) /\
+    ((insn_limit s = None \/ meter s' = meter s) ->
+     (forall fuel2 src2 m2,
+        ares (build_from_source fo pr rf fuel2 src2 m2 s) (build_from_source fo pr rf fuel2 src2 m2 s')) /\
+     (forall fuel2, oares (run (native_fn fo) fuel2 s) (run (native_fn fo) fuel2 s'))).
+Proof. exact rejected_source_then_later. Qed.
+Check C10_later_sources_equivalent : forall fo pr rf fuel src m s s1 k p s2,
+  (m = MEval \/ m = MCompile) ->
+  build_wf s ->
+  (context_open m ;; intern_source src) s = ROk tt s1 ->
+  build1 fo pr rf fuel (length (nested s1)) s1 = RErr k p s2 ->
+  calls_bad fo pr rf (length (dict s)) fuel (length (nested s1)) s1 = false ->
+  exists s', build_from_source fo pr rf fuel src m s = RErr k p s' /\ same_machine s s' /\
+    (rlog s' = None <-> rlog s = None) /\
+    ((insn_limit s = None \/ meter s' = meter s) ->
+     (forall fuel2 src2 m2,
+        ares (build_from_source fo pr rf fuel2 src2 m2 s) (build_from_source fo pr rf fuel2 src2 m2 s')) /\
+     (forall fuel2, oares (run (native_fn fo) fuel2 s) (run (native_fn fo) fuel2 s'))).
+
+(* the equivalence is a congruence for every later submission, so it extends to any number
+   of follow-up sources *)
+Theorem C10_equivalence_is_kept : forall fo pr rf s s',
+  arel s s' -> forall fuel src m,
+  ares (build_from_source fo pr rf fuel src m s) (build_from_source fo pr rf fuel src m s').
+Proof. exact later_source_equiv. Qed.
+Check C10_equivalence_is_kept : forall fo pr rf s s',
+  arel s s' -> forall fuel src m,
+  ares (build_from_source fo pr rf fuel src m s) (build_from_source fo pr rf fuel src m s').
+
+Theorem C10_equivalent_means : forall s s', arel s s' ->
+  dict s' = dict s /\ heap s' = heap s /\ code s' = code s /\ ds s' = ds s /\ rs s' = rs s /\
+  flows s' = flows s /\ loops s' = loops s /\ special s' = special s /\ cx s' = cx s /\
+  nested s' = nested s /\ insn_limit s' = insn_limit s /\ heap_limit s' = heap_limit s /\
+  stack_limit s' = stack_limit s /\ length (dbg s') = length (dbg s) /\
+  Forall2 (fun a b => in_lex a = in_lex b) (input s) (input s') /\
+  (insn_limit s = None \/ meter s' = meter s) /\ (rlog s' = None <-> rlog s = None).
+Proof. exact arel_machine. Qed.
+Check C10_equivalent_means : forall s s', arel s s' ->
+  dict s' = dict s /\ heap s' = heap s /\ code s' = code s /\ ds s' = ds s /\ rs s' = rs s /\
+  flows s' = flows s /\ loops s' = loops s /\ special s' = special s /\ cx s' = cx s /\
+  nested s' = nested s /\ insn_limit s' = insn_limit s /\ heap_limit s' = heap_limit s /\
+  stack_limit s' = stack_limit s /\ length (dbg s') = length (dbg s) /\
+  Forall2 (fun a b => in_lex a = in_lex b) (input s) (input s') /\
+  (insn_limit s = None \/ meter s' = meter s) /\ (rlog s' = None <-> rlog s = None).
+
+(* ---------- non-vacuity and the three refutations ---------- *)
+Local Open Scope string_scope.
+Definition c10_zf (a b : Z) : Z := 0%Z.
+Definition c10_fo : fops := fops_with c10_zf c10_zf c10_zf c10_zf c10_zf c10_zf c10_zf.
+Definition c10_pr : string -> option Z := fun _ => None.
+Definition c10_eval (src : string) (s : state) : res unit := eval c10_fo c10_pr 1000 1000 src s.
+Definition c10_state (r : res unit) : state := match r with ROk _ s => s | RErr _ _ s => s | _ => boot end.
+Definition c10_err (r : res unit) : option ekind := match r with RErr k _ _ => Some k | _ => None end.
+Definition c10_opened (src : string) (s : state) : state :=
+  c10_state ((context_open MEval ;; intern_source src) s).
+Definition c10_watch (src : string) (s : state) : bool :=
+  calls_bad c10_fo c10_pr 1000 (length (dict s)) 1000 (length (nested (c10_opened src s))) (c10_opened src s).
+Definition c10_wf_b (s : state) : bool :=
+  match input s with [] => true | _ => false end &&
+  (length (dbg s) =? length (code s))%nat && forallb (fun op => negb (is_resolve op)) (code s).
+(* the comparable part of [same_machine] (cells, opcodes and dictionary entries contain
+   functions-free data but no decidable equality is defined on them in the model; lengths and
+   the data stack rendered through the model's own cell equality are enough for a witness) *)
+Definition c10_obs (s : state) :=
+  (length (input s), nested s, cx s, length (code s), length (dbg s), flows s, length (dict s),
+   length (rs s), length (loops s), special s, length (heap s), length (ds s)).
+
+(* a state with history: two values on the stack, a definition, a variable *)
+Definition c10_s0 : state := c10_state (c10_eval "7 8 : sq dup * ; var v 3 ! v" boot).
+
+Example C10_ex_wf : c10_wf_b boot = true /\ c10_wf_b c10_s0 = true.
+Proof. vm_compute. split; reflexivity. Qed.
+
+(* an unknown word after an open [if], a definition and a meta block with an open vector:
+   rejected at build time, the watch is silent, everything observable is back *)
+Example C10_ex_rejected :
+  let src := "true if : f 2 ; 9 #( 1 2 [ 3 #) foo then" in
+  c10_err (c10_eval src c10_s0) = Some EFlow /\
+  c10_watch src c10_s0 = false /\
+  c10_obs (c10_state (c10_eval src c10_s0)) = c10_obs c10_s0.
+Proof. vm_compute. repeat split; reflexivity. Qed.
+
+Example C10_ex_rejected_unknown :
+  let src := "9 var w : f 2 ; true if #( 1 2 + #) foo then" in
+  c10_err (c10_eval src c10_s0) = Some EUnknown /\
+  c10_watch src c10_s0 = false /\
+  c10_obs (c10_state (c10_eval src c10_s0)) = c10_obs c10_s0.
+Proof. vm_compute. repeat split; reflexivity. Qed.
+
+(* all hypotheses of C10_rejected_source_restores / C10_later_sources_equivalent hold together
+   for this state and this source (so the theorems are not vacuous) *)
+Example C10_ex_hypotheses :
+  let s := wit_state (wit_eval "7 8 : sq dup * ; var v 3 ! v" boot) in
+  let src := "9 var w : f 2 ; true if #( 1 2 + #) foo then" in
+  build_wf s /\
+  (context_open MEval ;; intern_source src) s = ROk tt (wit_opened src s) /\
+  wit_built src s = RErr EUnknown None (wit_state (wit_built src s)) /\
+  calls_bad wit_fo wit_pr wit_rf (length (dict s)) wit_fuel
+            (length (nested (wit_opened src s))) (wit_opened src s) = false /\
+  insn_limit s = None.
+Proof. split; [apply wf_b_sound; vm_compute; reflexivity|]. vm_compute. repeat split; reflexivity. Qed.
+
+(* the follow-up: a probe evaluated after the rejected source gives the stack it gives without it *)
+Example C10_ex_followup :
+  let src := "9 var w : f 2 ; true if #( 1 2 + #) foo then" in
+  let probe := ": g sq 1 + ; v g 5 var w w" in
+  c10_err (c10_eval probe (c10_state (c10_eval src c10_s0))) = None /\
+  ds (c10_state (c10_eval probe (c10_state (c10_eval src c10_s0)))) = ds (c10_state (c10_eval probe c10_s0)) /\
+  ds (c10_state (c10_eval probe c10_s0)) = [CInt 5; CInt 10; CInt 7].
+Proof. vm_compute. repeat split; reflexivity. Qed.
+
+(* a source failing at run time: eval reports the error, the next line starts at its own code *)
+Example C10_ex_runtime_failure :
+  let s1 := c10_state (c10_eval "1 0 / 55" c10_s0) in
+  c10_err (c10_eval "1 0 / 55" c10_s0) = Some EDivZero /\
+  is_running s1 = true /\ nested s1 = [] /\
+  c10_err (c10_eval "66" s1) = None /\ ds (c10_state (c10_eval "66" s1)) = [CInt 66; CInt 7].
+Proof. vm_compute. repeat split; reflexivity. Qed.
+
+(* ---------- the hypotheses cannot be dropped (witnesses: Proofs/UnwindWitness.v) ---------- *)
+(* F1: a user-defined immediate word runs in the outer context while the source is built; the
+   value it drops is not given back by the unwinding: all hypotheses but [calls_bad = false]
+   hold, the source is rejected at build time, and the data stack has lost its top *)
+Theorem C10_user_immediate_refuted :
+  build_wf f1_s /\
+  (context_open MEval ;; intern_source f1_src) f1_s = ROk tt (wit_opened f1_src f1_s) /\
+  wit_built f1_src f1_s = RErr EUnknown None (wit_state (wit_built f1_src f1_s)) /\
+  calls_bad wit_fo wit_pr wit_rf (length (dict f1_s)) wit_fuel
+            (length (nested (wit_opened f1_src f1_s))) (wit_opened f1_src f1_s) = true /\
+  eval wit_fo wit_pr wit_rf wit_fuel f1_src f1_s = RErr EUnknown None (wit_unwound f1_src f1_s) /\
+  ds f1_s = [CInt 8; CInt 7] /\ ds (wit_unwound f1_src f1_s) = [CInt 7].
+Proof. exact user_immediate_refuted. Qed.
+Check C10_user_immediate_refuted :
+  build_wf f1_s /\
+  (context_open MEval ;; intern_source f1_src) f1_s = ROk tt (wit_opened f1_src f1_s) /\
+  wit_built f1_src f1_s = RErr EUnknown None (wit_state (wit_built f1_src f1_s)) /\
+  calls_bad wit_fo wit_pr wit_rf (length (dict f1_s)) wit_fuel
+            (length (nested (wit_opened f1_src f1_s))) (wit_opened f1_src f1_s) = true /\
+  eval wit_fo wit_pr wit_rf wit_fuel f1_src f1_s = RErr EUnknown None (wit_unwound f1_src f1_s) /\
+  ds f1_s = [CInt 8; CInt 7] /\ ds (wit_unwound f1_src f1_s) = [CInt 7].
+
+(* F2: [const] overwrites an existing constant in place; the rejected source's value stays *)
+Theorem C10_const_refuted :
+  build_wf f2_s /\
+  (context_open MEval ;; intern_source f2_src) f2_s = ROk tt (wit_opened f2_src f2_s) /\
+  wit_built f2_src f2_s = RErr EUnknown None (wit_state (wit_built f2_src f2_s)) /\
+  calls_bad wit_fo wit_pr wit_rf (length (dict f2_s)) wit_fuel
+            (length (nested (wit_opened f2_src f2_s))) (wit_opened f2_src f2_s) = true /\
+  eval wit_fo wit_pr wit_rf wit_fuel f2_src f2_s = RErr EUnknown None (wit_unwound f2_src f2_s) /\
+  dict_entry f2_s "X" = Some (DConst (CInt 1)) /\
+  dict_entry (wit_unwound f2_src f2_s) "X" = Some (DConst (CInt 5)).
+Proof. exact const_refuted. Qed.
+Check C10_const_refuted :
+  build_wf f2_s /\
+  (context_open MEval ;; intern_source f2_src) f2_s = ROk tt (wit_opened f2_src f2_s) /\
+  wit_built f2_src f2_s = RErr EUnknown None (wit_state (wit_built f2_src f2_s)) /\
+  calls_bad wit_fo wit_pr wit_rf (length (dict f2_s)) wit_fuel
+            (length (nested (wit_opened f2_src f2_s))) (wit_opened f2_src f2_s) = true /\
+  eval wit_fo wit_pr wit_rf wit_fuel f2_src f2_s = RErr EUnknown None (wit_unwound f2_src f2_s) /\
+  dict_entry f2_s "X" = Some (DConst (CInt 1)) /\
+  dict_entry (wit_unwound f2_src f2_s) "X" = Some (DConst (CInt 5)).
+
+(* F3: an unresolved [late] stub below the mark is resolved by build-time execution to a
+   definition of the rejected source and keeps pointing into the truncated code: every
+   hypothesis but "no unresolved stub" holds, the code cell is changed, and a later source that
+   leaves 1 from the state before fails with a stack underflow from the state after *)
+Theorem C10_late_stub_refuted :
+  input f3_s = [] /\ length (dbg f3_s) = length (code f3_s) /\
+  nth_error (code f3_s) 1 = Some (OResolve "foo") /\
+  (context_open MEval ;; intern_source f3_src) f3_s = ROk tt (wit_opened f3_src f3_s) /\
+  wit_built f3_src f3_s = RErr EUnknown None (wit_state (wit_built f3_src f3_s)) /\
+  calls_bad wit_fo wit_pr wit_rf (length (dict f3_s)) wit_fuel
+            (length (nested (wit_opened f3_src f3_s))) (wit_opened f3_src f3_s) = false /\
+  eval wit_fo wit_pr wit_rf wit_fuel f3_src f3_s = RErr EUnknown None (wit_unwound f3_src f3_s) /\
+  nth_error (code (wit_unwound f3_src f3_s)) 1 = Some (OCall 7) /\
+  length (code (wit_unwound f3_src f3_s)) = 6 /\
+  (exists s', wit_eval f3_probe f3_s = ROk tt s' /\ ds s' = [CInt 1]) /\
+  (exists s', wit_eval f3_probe (wit_unwound f3_src f3_s) = RErr EUnderflow None s').
+Proof. exact late_stub_refuted. Qed.
+Check C10_late_stub_refuted :
+  input f3_s = [] /\ length (dbg f3_s) = length (code f3_s) /\
+  nth_error (code f3_s) 1 = Some (OResolve "foo") /\
+  (context_open MEval ;; intern_source f3_src) f3_s = ROk tt (wit_opened f3_src f3_s) /\
+  wit_built f3_src f3_s = RErr EUnknown None (wit_state (wit_built f3_src f3_s)) /\
+  calls_bad wit_fo wit_pr wit_rf (length (dict f3_s)) wit_fuel
+            (length (nested (wit_opened f3_src f3_s))) (wit_opened f3_src f3_s) = false /\
+  eval wit_fo wit_pr wit_rf wit_fuel f3_src f3_s = RErr EUnknown None (wit_unwound f3_src f3_s) /\
+  nth_error (code (wit_unwound f3_src f3_s)) 1 = Some (OCall 7) /\
+  length (code (wit_unwound f3_src f3_s)) = 6 /\
+  (exists s', wit_eval f3_probe f3_s = ROk tt s' /\ ds s' = [CInt 1]) /\
+  (exists s', wit_eval f3_probe (wit_unwound f3_src f3_s) = RErr EUnderflow None s').
